@@ -558,11 +558,13 @@ func main() {
 			return
 		}
 		var rp struct{ Line string }
-		var hw struct{ HttpWholeServer bool }
+		var hw struct{ HttpWholeServer, ShutdownWait bool }
 		vrt.LoadReplay(&rp)
 		vrt.LoadReplay(&hw)
 		if hw.HttpWholeServer {
 			httpWholeServer(res)
+		} else if hw.ShutdownWait {
+			checkShutdownWait()
 		} else {
 			enumLine(rp.Line)
 		}
@@ -613,6 +615,7 @@ func main() {
 		enum()
 		if *vrt.Shard == 0 && !vsched.Free() && vsched.FreeRuns == 0 {
 			httpWholeServer(res)
+			checkShutdownWait()
 		}
 		res.SetDistinctKeys(accepted)
 		res.States = int64(len(accepted))
